@@ -45,6 +45,7 @@ d63250d C09 C09-send-hangs-while-read-side-fails
 eca7f36 C18 C18-orphan-notification-handler
 17b7272 C10 C10-oversized-frame-aborts-graceful-wait
 990294b C11 C11-get-proxy-turns-429-into-500
+100d1a6 C07 C07-get-proxy-stale-content-length
 LIST
 rm -rf /verif/replays
 (cd /verif/sim && cargo build --release --offline -q 2>/dev/null)
